@@ -317,13 +317,13 @@ Fixpoint dec_digits_aux (fuel : nat) (n : Z) (acc : list Z) : list Z :=
 Definition dec_str (n : Z) : str := str_of_digits (dec_digits_aux 60 n []).
 Definition zrepeat (x : Z) (n : Z) : str := repeat x (Z.to_nat n).
 
-(* _format_value: str(value) = Decimal.__str__ (to-scientific-string) for finite numbers.
+(* _format_value AS FOUND (before repo commit 0aeea5a): str(value) = Decimal.__str__ (to-scientific-string).
    ASSUMED (validated by the harness): _decimal's str() follows _pydecimal.Decimal.__str__:
      leftdigits = exp + len(int)
      dotplace = leftdigits if exp <= 0 and leftdigits > -6 else 1
      dotplace <= 0: '0' '.' '0'*(-dotplace) int | dotplace >= len: int '0'*(dotplace-len) | int[:dp] '.' int[dp:]
      exponent suffix 'E%+d' % (leftdigits - dotplace) unless equal *)
-Definition number_format (v : decimal) : str :=
+Definition number_format_str (v : decimal) : str :=
   let '(sign, ds, e) := v in
   let n := zlen ds in
   let leftdigits := e + n in
@@ -337,6 +337,40 @@ Definition number_format (v : decimal) : str :=
     else let x := leftdigits - dotplace in
          69 :: (if x <? 0 then DASH :: dec_str (- x) else 43 :: dec_str x) in
   (if sign =? 1 then [DASH] else []) ++ body ++ ex.
+
+(* _format_value (repo commit 0aeea5a): format(value, 'f').
+   ASSUMED (validated by the harness on generated (sign, digits, exponent)): _decimal follows
+   _pydecimal.Decimal.__format__ with type 'f' and no precision:
+     a zero with positive exponent is rescaled to exponent 0
+     dotplace = exp + len(int)
+     dotplace < 0:   '0' '.' '0'*(-dotplace) int
+     dotplace > len: int '0'*(dotplace-len)
+     otherwise:      (int[:dotplace] or '0') then '.' int[dotplace:] unless that is empty
+   no exponent suffix, '-' for sign 1 *)
+Definition number_format (v : decimal) : str :=
+  let '(sign, ds0, e0) := v in
+  let rescale := (0 <? e0) && forallb (fun d => d =? 0) ds0 in
+  let ds := if rescale then [0] else ds0 in
+  let e := if rescale then 0 else e0 in
+  let n := zlen ds in
+  let dotplace := e + n in
+  let body :=
+    if dotplace <? 0 then 48 :: DOT :: zrepeat 48 (- dotplace) ++ str_of_digits ds
+    else if n <? dotplace then str_of_digits ds ++ zrepeat 48 (dotplace - n)
+    else let ip := zfirstn dotplace ds in
+         let fr := zskipn dotplace ds in
+         (if is_nil ip then [48] else str_of_digits ip) ++ (if is_nil fr then [] else DOT :: str_of_digits fr) in
+  (if sign =? 1 then [DASH] else []) ++ body.
+
+(* Decimal.__eq__ on finite numbers is numeric: coefficient * 10^exponent, zeros of either sign equal *)
+Definition coef (ds : list Z) : Z := fold_left (fun a d => a * 10 + d) ds 0.
+Definition dec_eqb (v w : decimal) : bool :=
+  let '(s1, d1, e1) := v in
+  let '(s2, d2, e2) := w in
+  let m := Z.min e1 e2 in
+  let a := coef d1 * 10 ^ (e1 - m) in
+  let b := coef d2 * 10 ^ (e2 - m) in
+  (a =? b) && ((s1 =? s2) || (a =? 0)).
 
 (* ------------------------------------------------------------------------------------------------ *)
 (* Tag, Link, MetaKey, Bool, Null, Account, Currency                                                *)
@@ -572,10 +606,12 @@ Definition dom_date := valid_date.
 Definition all_digits (ds : list Z) : bool := forallb (fun d => (0 <=? d) && (d <=? 9)) ds.
 Definition canonical_digits (ds : list Z) : bool :=
   all_digits ds && match ds with [] => false | [d] => true | d :: _ => negb (d =? 0) end.
-(* non-negative, plain notation: str() writes no exponent *)
+(* every finite non-negative Decimal: format(v, 'f') is a NUMBER lexeme with the same numeric value *)
 Definition dom_number (v : decimal) : bool :=
-  let '(sign, ds, e) := v in
-  (sign =? 0) && canonical_digits ds && (e <=? 0) && (-6 <? e + zlen ds).
+  let '(sign, ds, e) := v in (sign =? 0) && canonical_digits ds.
+(* those whose (sign, digits, exponent) representation survives the round trip exactly *)
+Definition dom_number_exact (v : decimal) : bool :=
+  let '(sign, ds, e) := v in (sign =? 0) && canonical_digits ds && (e <=? 0).
 Definition dom_tag (v : str) : bool := negb (is_nil v) && forallb is_tagchar v.
 Definition dom_metakey (v : str) : bool :=
   match v with c :: r => is_lower c && negb (is_nil r) && forallb is_keychar r | [] => false end.
